@@ -1,4 +1,12 @@
-import StreamzVerif.Model.Graph
-namespace StreamzVerif.Graph
-theorem placeholder_C08 : True := trivial
-end StreamzVerif.Graph
+import StreamzVerif.Props.AsyncWindows
+/-!
+# C08 — time windows conserve elements and honour their deadline (index module)
+
+All C08 theorems live in `Props/AsyncWindows.lean` (prefix `c08_`), over the transition systems `TW`
+(timed_window / timed_window_unique) and `PT` (partition with timeout) of `Model/AsyncWindows.lean`,
+for every action sequence: `c08_timed_window_conservation`, `c08_timed_window_unique_conservation`,
+`c08_timed_window_unique_batch_spec`, `c08_timed_window_deadline(_sync)`,
+`c08_timed_window_buffered_not_overdue`, `c08_partition_size`, `c08_partition_timer_iff`,
+`c08_partition_no_timer_for_n1`, `c08_partition_deadline`, `c08_partition_buffered_not_overdue`,
+`c08_partition_conservation`.
+-/
